@@ -23,10 +23,26 @@ def main():
     subprocess.run(["git", "-C", "/repo", "worktree", "remove", "--force", wt], stdout=subprocess.DEVNULL, stderr=subprocess.DEVNULL)
     shutil.rmtree(wt, ignore_errors=True)
     subprocess.run(["git", "-C", "/repo", "worktree", "add", "--detach", "-f", wt, "HEAD"], check=True, stdout=subprocess.DEVNULL, stderr=subprocess.DEVNULL)
-    env = dict(os.environ, CARGO_TARGET_DIR="/scratch/seedtarget", CARGO_NET_OFFLINE="true")
+    # one of four target directories (the first whose lock is free), so that confirmations can run in parallel
+    import fcntl
+    import time
+    os.makedirs("/scratch", exist_ok=True)
+    slot, held = 0, None
+    while held is None:
+        for slot in range(4):
+            fh = open("/scratch/seedtarget-%d.lock" % slot, "w")
+            try:
+                fcntl.flock(fh, fcntl.LOCK_EX | fcntl.LOCK_NB)
+                held = fh
+                break
+            except OSError:
+                fh.close()
+        else:
+            time.sleep(5)
+    env = dict(os.environ, CARGO_TARGET_DIR="/scratch/seedtarget-%d" % slot, CARGO_NET_OFFLINE="true")
     if os.environ.get("SEED_RUSTFLAGS"):
         env["RUSTFLAGS"] = os.environ["SEED_RUSTFLAGS"]
-        env["CARGO_TARGET_DIR"] = "/scratch/seedtarget-flags"
+        env["CARGO_TARGET_DIR"] = "/scratch/seedtarget-%d-flags" % slot
     feats = ["--features", os.environ["SEED_FEATURES"]] if os.environ.get("SEED_FEATURES") else []
     res = {}
     try:
